@@ -29,6 +29,37 @@ def bool_binders_only(f):
     return True
 
 
+def design_and_drift(ck, evs, quick):
+    """(A) the rule models of the NNFizer / AIGer (Rewriters.tla) meet the contract on whole generated layers;
+    (C') the outputs of the real rewriters are the models' outputs up to commutative argument order."""
+    import os
+    import tempfile
+    for layer, cap in (("QF", 64), ("WIDE", 1024)) + ((() if quick else (("QB", 64),))):
+        fd, cfg = tempfile.mkstemp(suffix=".cfg", prefix="mcrewr_")
+        with os.fdopen(fd, "w") as f:
+            f.write("SPECIFICATION Spec\nCHECK_DEADLOCK FALSE\nCONSTANTS\n  WhichLayer = \"%s\"\n  Seed = 0\n  Cap = %d\n"
+                    "INVARIANT ModelMeetsContract\n" % (layer, cap))
+        try:
+            r = tlc.run("mc/MC_Rewriters", cfg=cfg, timeout=7200, heap="6g")
+        finally:
+            os.unlink(cfg)
+        ck.add_tlc(r)
+        if r.invariant_violated or r.error or r.rc != 0:
+            ck.machinery_error("MC_Rewriters on layer %s: the rule model itself breaks %s %s\n%s"
+                               % (layer, r.invariant_violated, r.error, r.out[-1500:]))
+        ck.part("design_check_MC_Rewriters_" + layer, formulas=r.distinct // 4, states=r.distinct, models=["NnfM", "AigM"])
+    sel = [e for e in evs if e["proc"] in ("nnf", "aig") and e["res"] == "ok"]
+    verdicts, st = tlc.validate_events("Trace_Rewr", sel, constants={"Seed": 0, "Cap": 8})
+    ck.add_tlc(st)
+    byid = {e["id"]: e for e in sel}
+    for i in sorted(verdicts)[:20]:
+        print("MODEL-DRIFT property=C10 the output of %s differs from the rule model on %s" % (byid[i]["proc"], shape(byid[i]["f"])))
+    ck.cov["drift"] += len(verdicts)
+    changed = sum(1 for e in sel if e["out"] != e["f"])
+    ck.part("rule_model_conformance", pairs=len(sel), outputs_that_differ_from_input=changed,
+            agree_up_to_AC=len(sel) - len(verdicts), drift=len(verdicts))
+
+
 def run(ck):
     warnings.simplefilter("ignore")
     quick = ck.tier == "quick"
@@ -100,6 +131,7 @@ def run(ck):
     ck.add_tlc(stw)
     verdicts.update(vw)
     ck.part("wide_connectives", events=len(wide), operands="3..14", interpretations="exhaustive (2^10)")
+    design_and_drift(ck, evs, quick)
     byid = {e["id"]: e for e in evs}
     for i, fails in verdicts.items():
         e = byid[i]
